@@ -55,8 +55,14 @@ CLAIMED['C11'] = dict(
     note='whole-run claim from the step lemma uses a stated paper induction (function structure checked on the AST each run); GF(2)-affine normal forms in the engine decide checksum identities syntactically; '
          'substitutions in the human-readable part/separator and >=5 substitutions are outside the claim.',
     technique='bounded symbolic execution of the real Python source on z3 proxies; kernel lifting of the polymod loop body + step lemmas; per-position-set SMT queries for error detection')
+CLAIMED['C16'] = dict(
+    text=_T + 'CheckTransaction outcome compared with an independent rule predicate for all int64 output values, symbolic prevouts (duplicates / null reachable by the solver), '
+         'coinbase script lengths {0,1,2,100,101}, per chain; CheckBlock / CheckBlockHeader outcome compared with a Core/BIP141 reference on blocks of 1..3 transactions '
+         'deserialised from reference bytes with symbolic fields, merkle root and witness commitment offered as reference value + symbolic delta, sigops at 19 999/20 000/20 001, '
+         'coinbase-witness shapes; every rejection must be a ValidationError (exposed the coinbase-not-checked and IndexError defects, now fixed).',
+    note='SHA-256 uninterpreted; block shapes are the bound (<=3 txs); scripts are concrete filler except in the sigop / symbolic-script shapes; size/weight limits one shape per side; PoW exactness is C17.')
 _UC = 'check not built yet in this round (engine exists; harness pending) - will be claimed or declared not applicable with its real reason'
-for _i in ['C05','C06','C07','C09','C12','C14','C16','C18','C19']:
+for _i in ['C05','C06','C07','C09','C12','C14','C18','C19']:
     NA[_i] = _UC
 NA['C13'] = ('key derivation, signing, verification and point validity are computed by OpenSSL through ctypes: there is no Python or IR to execute '
              'symbolically, and the reference (secp256k1 group law, 256-bit modular inversion) is non-linear 256-bit arithmetic out of reach of z3/cvc5')
